@@ -5,6 +5,7 @@ package web
 
 import (
 	"github.com/labstack/echo/v4"
+	"go.uber.org/zap"
 
 	"github.com/mimiro-io/datahub/internal/server"
 )
@@ -13,4 +14,7 @@ import (
 func VerifC09Register(e *echo.Echo, dm *server.DsManager, store *server.Store) {
 	h := &datasetHandler{datasetManager: dm, store: store, eventBus: server.NoOpBus()}
 	e.POST("/datasets/:dataset/entities", h.storeEntitiesHandler)
+	// the real transaction endpoint (Store.ExecuteTransaction is the second caller of the write worker)
+	th := &txnHandler{store: store, logger: zap.NewNop().Sugar()}
+	e.POST("/transactions", th.processTransaction)
 }
